@@ -200,6 +200,14 @@ func (t *Input) reflectSetKey(rv reflect.Value, key string, v interface{}) (err 
 
 func (t *Input) reflectSet(rv reflect.Value, v interface{}) (err error) {
 	if rv.CanSet() {
+		if v == nil {
+			switch rv.Kind() {
+			case reflect.Ptr, reflect.Interface, reflect.Slice, reflect.Map:
+				rv.Set(reflect.Zero(rv.Type()))
+				return
+			}
+			return fmt.Errorf("can not coerce a null into a %s", rv.Kind())
+		}
 		vv := reflect.ValueOf(v)
 		vt := vv.Type()
 		if vt.AssignableTo(rv.Type()) {
